@@ -72,9 +72,46 @@ type Case struct {
 	OptStyle   int                   `json:"optstyle,omitempty"` // how the SAME configuration is spelled as an option list: see Options
 	SizeXY     int                   `json:"size_xy,omitempty"`  // what the X/Y fields of the size map's graph.Size values hold: 0 zero, 1/2 junk (see SizeMap)
 	Ord        int                   `json:"ord,omitempty"`      // 0 = OrderingWMedian (default), 1 = OrderingNoop (public option; only C16 draws it)
+	Near       []NearVar             `json:"near,omitempty"`     // near-duplicate inputs laid out in the same process (only C07 draws them)
 	lastDecoy  map[string]graph.Size // the decoy size map handed out by the last Options call (style 3), for C07
 	NS         *float64              `json:"ns,omitempty"` // nil = option not passed (default 60)
 	LS         *float64              `json:"ls,omitempty"` // nil = option not passed (default 150)
+}
+
+// NearVar describes an input that differs from its base case by a hair: one node's width, the NodeSpacing or the
+// LayerSpacing grows by Delta (1e-9 .. 0.0049). Two such inputs are different arguments and have their own results;
+// anything that remembers results across calls under a lossy key (rounded, formatted with %.2f, hashed from a
+// truncated value) hands one of them the other's. seeded/r6-m07 memoised geom.Shortest under fmt.Sprint of its
+// arguments, and geom.Rect's String method prints two decimals.
+type NearVar struct {
+	Kind  int     `json:"kind"` // 0 width of Node, 1 NodeSpacing, 2 LayerSpacing
+	Node  string  `json:"node,omitempty"`
+	Delta float64 `json:"delta"`
+}
+
+func (c *Case) WithNear(v NearVar) *Case {
+	d := c.Clone()
+	d.Near = nil
+	switch v.Kind {
+	case 0:
+		s := d.ConfiguredSize(v.Node)
+		s.W += v.Delta
+		if d.Sizes == nil {
+			d.Sizes = map[string]Sz{}
+		}
+		d.Sizes[v.Node] = s
+		switch d.SzMode {
+		case SzNone:
+			d.SzMode = SzPerNode
+		case SzFixed:
+			d.SzMode = SzFixedPerNode
+		}
+	case 1:
+		d.NS = ptr(d.NodeSpacing() + v.Delta)
+	default:
+		d.LS = ptr(d.LayerSpacing() + v.Delta)
+	}
+	return d
 }
 
 func (c *Case) JSON() string {
@@ -88,6 +125,7 @@ func (c *Case) JSON() string {
 func (c *Case) Clone() *Case {
 	d := *c
 	d.Edges = append([][2]string(nil), c.Edges...)
+	d.Near = append([]NearVar(nil), c.Near...)
 	if c.Sizes != nil {
 		d.Sizes = make(map[string]Sz, len(c.Sizes))
 		for k, v := range c.Sizes {
